@@ -427,6 +427,18 @@ impl Prop for C16 {
         Ok(())
     }
 
+    fn sanitize(case: &mut Case) {
+        if let Case::Sparse { universe, capacity, multiset, .. } = case {
+            *capacity %= 80;
+            if *capacity == 0 && *universe > (1 << 27) {
+                *universe = 1 << 27;
+            }
+            if *multiset && *capacity > *universe && *universe > (1 << 27) {
+                *universe = 1 << 27;
+            }
+        }
+    }
+
     fn assumptions() -> Vec<String> {
         vec![
             "the unsafe set_unchecked / set_bit_unchecked / set_run_unchecked are only called with arguments inside their documented contracts".into(),
